@@ -192,6 +192,10 @@ func (h *hist) takeRequest(wait *syncCall) (uint16, bool) {
 }
 
 func run(in Sx) Sx {
+	if in.Len() == 4 { // (2 ncallers percaller seed): concurrent callers, evaluated on the Go side
+		code, what := stress(in.At(1).AsInt(), in.At(2).AsInt(), in.At(3).Uint64())
+		return List(Int(-3), Int(code), Str(what))
+	}
 	if in.Len() == 1 { // (c0): the full-table scenario, evaluated on the Go side
 		code, what := fullTable(uint16(in.At(0).Uint64()))
 		return List(Int(-2), Int(code), Str(what))
@@ -310,10 +314,11 @@ func (h *hist) burst(n int) (lastSeq, bad int64) {
 type aim struct {
 	counter uint16
 	out     []uint16
+	dl      []int64
 	used    []uint16
 }
 
-func (m *aim) call() uint16 {
+func (m *aim) next() uint16 {
 	for {
 		m.counter++
 		if m.counter == 0 {
@@ -326,11 +331,30 @@ func (m *aim) call() uint16 {
 			}
 		}
 		if free {
-			break
+			return m.counter
 		}
 	}
-	m.out = append(m.out, m.counter)
-	return m.counter
+}
+
+func (m *aim) call(dl int64) uint16 {
+	seq := m.next()
+	m.out = append(m.out, seq)
+	m.dl = append(m.dl, dl)
+	return seq
+}
+
+func (m *aim) drop(i int) {
+	m.used = append(m.used, m.out[i])
+	m.out = append(m.out[:i], m.out[i+1:]...)
+	m.dl = append(m.dl[:i], m.dl[i+1:]...)
+}
+
+func (m *aim) sweep(now int64) {
+	for i := len(m.out) - 1; i >= 0; i-- {
+		if m.dl[i] < now {
+			m.drop(i)
+		}
+	}
 }
 
 func genHistory(rng *Rng) Sx {
@@ -345,15 +369,17 @@ func genHistory(rng *Rng) Sx {
 		case k < 8:
 			adj := rng.PickI64(0, 0, 0, 1000, 5000, 30000)
 			ops = append(ops, Ints(0, int64(rng.Intn(10)/7), adj))
-			m.call()
+			if adj == 0 {
+				adj = 60000
+			}
+			m.call(adj)
 		case k < 15:
 			var seq uint16
 			switch j := rng.Intn(10); {
 			case j < 6 && len(m.out) > 0:
 				x := rng.Intn(len(m.out))
 				seq = m.out[x]
-				m.used = append(m.used, seq)
-				m.out = append(m.out[:x], m.out[x+1:]...)
+				m.drop(x)
 			case j < 8 && len(m.used) > 0:
 				seq = m.used[rng.Intn(len(m.used))] // duplicate / late response
 			case j == 8:
@@ -368,13 +394,16 @@ func genHistory(rng *Rng) Sx {
 			ops = append(ops, Ints(1, int64(seq), rid, errno, int64(Bool(!rng.Chance(3, 20)).Int64())))
 			rid++
 		case k < 18:
-			ops = append(ops, Ints(2, sweeps[rng.Intn(len(sweeps))]))
+			now := sweeps[rng.Intn(len(sweeps))]
+			ops = append(ops, Ints(2, now))
+			m.sweep(now)
 		case k < 19:
 			ops = append(ops, Ints(3))
 		default:
-			ops = append(ops, Ints(4, int64(rng.Range(1, 30))))
-			for j := 0; j < 30; j++ {
-				// keep the aim roughly in step (exact position does not matter)
+			nb := rng.Range(1, 30)
+			ops = append(ops, Ints(4, int64(nb)))
+			for j := 0; j < nb; j++ {
+				m.counter = m.next()
 			}
 		}
 	}
@@ -405,7 +434,7 @@ func genWrap(rng *Rng) Sx {
 	m := &aim{counter: c0}
 	var victim uint16
 	for i := 0; i <= pre; i++ {
-		victim = m.call()
+		victim = m.call(60000)
 	}
 	ops = append(ops, Ints(1, int64(victim), 7, 0, 1))
 	ops = append(ops, Ints(2, 200000), Ints(3))
@@ -487,8 +516,143 @@ func fullTable(c0 uint16) (code int64, what string) {
 
 var fullChecked int64
 
+// stress: ncallers goroutines issue Call / AsyncCall at the same time; one owner goroutine (as the
+// code intends) takes the requests off the queue, answers most of them through Dispatch, lets the
+// others time out (sweep + ReapTimeout).  Afterwards: every call completed exactly once, answered
+// calls with their own reply, the others with RequestTimeout; no two outstanding requests ever
+// carried the same sequence number, none carried 0.
+// returns 0 ok | 1 zero seq | 2 duplicate outstanding seq | 3 wrong reply / code | 5 wrong timeout |
+//         7 completion count != 1 | 9 inconclusive (a blocking caller neither returned nor parked)
+func stress(ncallers, per int, seed uint64) (int64, string) {
+	total := ncallers * per
+	// the queue holds every request: makeCall sends on it while holding the table mutex, so a full
+	// queue would block Dispatch behind a blocked caller (outside the statement; see props/C15.json)
+	cli := qnet.NewRpcClient(context.Background(), total+8)
+	cli.VerifSetCounter(uint16(seed))
+	rng := NewRng(seed)
+	answer := make([]bool, total)
+	blocking := make([]bool, total)
+	for i := range answer {
+		answer[i] = !rng.Chance(1, 5)
+		blocking[i] = rng.Chance(1, 4)
+	}
+	count := make([]int32, total)
+	gotCode := make([]int32, total)
+	gotRid := make([]int64, total)
+	var checked int64
+	defer func() { atomic.AddInt64(&fullChecked, atomic.LoadInt64(&checked)) }()
+	var wg sync.WaitGroup
+	var issued int64
+	syncs := make([]*syncCall, 0, total)
+	var smu sync.Mutex
+	for g := 0; g < ncallers; g++ {
+		wg.Add(1)
+		go func(g int) {
+			defer wg.Done()
+			for i := 0; i < per; i++ {
+				id := g*per + i
+				req := wrapperspb.String("q" + strconv.Itoa(id))
+				if blocking[id] {
+					sc := &syncCall{}
+					smu.Lock()
+					syncs = append(syncs, sc)
+					smu.Unlock()
+					go func() {
+						atomic.StoreInt32(&sc.gid, int32(Goid()))
+						atomic.AddInt64(&issued, 1)
+						ctx := cli.Call(node, req)
+						ack := ctx.VerifAck()
+						atomic.StoreInt32(&gotCode[id], ack.Errno())
+						rid := int64(-1)
+						if ack.Errno() == 0 {
+							if err := ack.Decode(); err == nil {
+								rid = ridOf(ack.Body().(proto.Message))
+							}
+						}
+						atomic.StoreInt64(&gotRid[id], rid)
+						atomic.AddInt32(&count[id], 1)
+						atomic.StoreInt32(&sc.done, 1)
+					}()
+				} else {
+					atomic.AddInt64(&issued, 1)
+					cli.AsyncCall(node, req, func(msg proto.Message, code int32) error {
+						atomic.StoreInt32(&gotCode[id], code)
+						rid := int64(-1)
+						if msg != nil {
+							rid = ridOf(msg)
+						}
+						atomic.StoreInt64(&gotRid[id], rid)
+						atomic.AddInt32(&count[id], 1)
+						return nil
+					})
+				}
+			}
+		}(g)
+	}
+	// the owner
+	outstanding := map[uint16]int{}
+	handled := 0
+	deadline := time.Now().Add(20 * time.Second)
+	for handled < total && time.Now().Before(deadline) {
+		select {
+		case p := <-cli.PendingQueue():
+			handled++
+			atomic.AddInt64(&checked, 1)
+			seq := p.Seq()
+			sv, _ := p.Body().(*wrapperspb.StringValue)
+			id, _ := strconv.Atoi(strings.TrimPrefix(sv.GetValue(), "q"))
+			if seq == 0 {
+				return 1, "request of call " + strconv.Itoa(id) + " carries sequence number 0"
+			}
+			if other, dup := outstanding[seq]; dup {
+				return 2, "calls " + strconv.Itoa(other) + " and " + strconv.Itoa(id) + " outstanding with the same sequence number " + strconv.Itoa(int(seq))
+			}
+			if answer[id] {
+				body, _ := proto.Marshal(wrapperspb.String("r" + strconv.Itoa(id)))
+				if err := cli.Dispatch(packet.New(msgID, seq, fatchoy.PFlagRpc, body)); err != nil {
+					return 3, "response to outstanding call " + strconv.Itoa(id) + " not matched: " + err.Error()
+				}
+			} else {
+				outstanding[seq] = id
+				cli.VerifSetDeadline(seq, time.Now().Add(-time.Second)) // this one is overdue from now on
+			}
+			if handled%97 == 0 { // the calls the owner left unanswered time out; all others have 60 s left
+				cli.VerifSweep(time.Now())
+				cli.ReapTimeout()
+				outstanding = map[uint16]int{}
+			}
+		default:
+			time.Sleep(20 * time.Microsecond)
+		}
+	}
+	if handled < total {
+		return 9, "not all requests arrived within 20 s"
+	}
+	wg.Wait()
+	cli.VerifSweep(time.Now())
+	cli.ReapTimeout()
+	h := &hist{syncs: syncs}
+	if !h.settle() {
+		return 9, "a blocking caller neither returned nor parked"
+	}
+	for id := 0; id < total; id++ {
+		atomic.AddInt64(&checked, 1)
+		if c := atomic.LoadInt32(&count[id]); c != 1 {
+			return 7, "call " + strconv.Itoa(id) + " completed " + strconv.Itoa(int(c)) + " times"
+		}
+		code, rid := atomic.LoadInt32(&gotCode[id]), atomic.LoadInt64(&gotRid[id])
+		if answer[id] && (code != 0 || rid != int64(id)) {
+			return 3, "call " + strconv.Itoa(id) + " answered, completed with code " + strconv.Itoa(int(code)) + " reply " + strconv.FormatInt(rid, 10)
+		}
+		if !answer[id] && code != int32(codes.RequestTimeout) {
+			return 5, "call " + strconv.Itoa(id) + " not answered, completed with code " + strconv.Itoa(int(code))
+		}
+	}
+	return 0, ""
+}
+
 func nontrivial(in Sx) bool {
-	if in.Len() == 1 {
+	if in.Len() == 1 || in.Len() == 4 {
 		return true
 	}
 	calls := 0
@@ -502,14 +666,14 @@ func nontrivial(in Sx) bool {
 
 func gen(a Args, out *Out) {
 	rng := NewRng(a.Seed)
-	nhist, nwrap, nfull := 400, 3, 1
+	nhist, nwrap, nfull, nstress := 400, 3, 1, 12
 	if a.Thorough() {
-		nhist, nwrap, nfull = 8000, 30, 4
+		nhist, nwrap, nfull, nstress = 8000, 30, 4, 300
 	}
 	emit := func(kind string, in Sx) {
 		obs := run(in)
 		out.Case(kind, nontrivial(in), in, obs)
-		if in.Len() == 1 {
+		if in.Len() == 1 || in.Len() == 4 {
 			return
 		}
 		for i := 0; i < in.At(1).Len() && obs.Len() == in.At(1).Len(); i++ {
@@ -543,6 +707,16 @@ func gen(a Args, out *Out) {
 	for i := 0; i < nfull; i++ {
 		in := List(Uint(uint64(r3.Intn(65536))))
 		out.Case("full", true, in, run(in))
+	}
+	r4 := rng.Fork()
+	for i := 0; i < nstress; i++ {
+		in := Ints(2, int64(r4.Range(2, 8)), int64(r4.Range(5, 120)), int64(r4.Intn(1<<30)))
+		obs := run(in)
+		out.Case("stress", true, in, obs)
+		if obs.At(1).AsInt() == 9 {
+			out.Count("inconclusive:stress")
+		}
+		out.CountN("stress:calls", in.At(1).AsInt()*in.At(2).AsInt())
 	}
 	out.GoChecked += atomic.LoadInt64(&fullChecked)
 	if n := atomic.LoadInt32(&nInconclusive); n > 0 {
